@@ -46,6 +46,17 @@ impl Prop for C05 {
         } else {
             (0..rng.range(1, 4)).map(|_| Val::u(rng.below(300))).collect()
         };
+        if _i == 0 && _n > 1 {
+            // "every relative processing speed": one free-running case per shard in which a single item takes
+            // seconds while the others are instant (a consumer-side or worker-side timeout would cut the stream
+            // or reorder it). One delay per item; microseconds.
+            let n = rng.range(3, 6);
+            let slow = rng.below(n - 1);
+            let secs = if tier == Tier::Thorough { 7_500_000 } else { 3_200_000 };
+            let xs: Vec<Val> = (0..n).map(|k| Val::I(k as i64)).collect();
+            let delays: Vec<Val> = (0..n).map(|k| Val::u(if k == slow { secs } else { 0 })).collect();
+            return Val::L(vec![Val::I(1), Val::L(xs), Val::u(rng.range(1, 3)), Val::L(delays)]);
+        }
         Val::L(vec![Val::I(mode), Val::L(xs), Val::u(w), Val::L(choices)])
     }
 
@@ -105,6 +116,9 @@ impl Prop for C05 {
                 let r = run_pipe_free(&xs, w, &delays);
                 if xs.len() >= 2 && w >= 2 {
                     tags.push("nt".into());
+                }
+                if delays.iter().any(|d| *d >= 1_000_000) {
+                    tags.push("slow-item".into());
                 }
                 r
             }
